@@ -21,7 +21,7 @@ PrimBase(p) ==
     [] p = "uint64"  -> {Z8, <<1, 0, 0, 0, 0, 0, 0, 0>>, <<255, 255, 255, 255, 255, 255, 255, 255>>}
     [] p = "float64" -> {Z8, <<0, 0, 0, 0, 0, 0, 240, 63>>, <<1, 0, 0, 0, 0, 0, 248, 127>>, <<0, 0, 0, 0, 0, 0, 240, 127>>, <<1, 0, 0, 0, 0, 0, 0, 0>>, <<0, 0, 0, 0, 0, 0, 0, 128>>}
     [] p = "byte"    -> {<<0>>, <<1>>, <<255>>}
-    [] p = "string"  -> {<<>>, <<97>>, <<97, 98, 99, 100>>, <<255, 0>>, <<226, 130, 172, 34, 92, 10>>} \cup LongStrings
+    [] p = "string"  -> {<<>>, <<97>>, <<97, 98, 99, 100>>, <<255, 0>>, <<226, 130, 172, 34, 92, 10>>, <<97, 226, 128, 168, 9, 98>>} \cup LongStrings
     [] OTHER         -> BOOLEAN
 PrimDom(p) == PrimBase(p) \cup ExtraVals(p)   \* ExtraVals: per-run extra leaf values (SchemaData), e.g. C34's byte-class strings
 
@@ -55,6 +55,25 @@ HasTL2OnlyOpt(tn, v) ==
                            ELSE HasTL2OnlyOpt(f.t, v[i])
     [] t.k = "union" -> HasTL2OnlyOpt(t.variants[v.i], v.v)
     [] t.k \in {"array", "dict"} -> \E j \in 1..Len(v) : HasTL2OnlyOpt(t.elem.t, v[j])
+
+(* INVALID values: exactly one dynamic tuple (n*[T]) somewhere in v gets one element too *)
+(* many or one too few, nothing else is adjusted (what an application can build by hand) *)
+RECURSIVE BadMods(_, _, _)
+BadMods(tn, env, v) ==
+  LET t == TY(tn) IN
+  CASE t.k = "prim" -> {}
+    [] t.k = "struct" ->
+         UNION { LET f == t.fields[i]  cenv == ArgsVal(f.na, env, t, v) IN
+                 IF IsOpt(f) THEN (IF IsP(v[i]) /\ ~f.isbit THEN {[v EXCEPT ![i] = Pres(w)] : w \in BadMods(f.t, cenv, PV(v[i]))} ELSE {})
+                 ELSE {[v EXCEPT ![i] = w] : w \in BadMods(f.t, cenv, v[i])}
+               : i \in 1..Len(t.fields) }
+    [] t.k = "union" -> {[i |-> v.i, v |-> w] : w \in BadMods(t.variants[v.i], ArgsVal(t.elemNa, env, t, <<>>), v.v)}
+    [] t.k \in {"array", "dict"} ->
+         LET cenv == ArgsVal(t.elem.na, env, t, <<>>) IN
+         (IF t.k = "array" /\ t.tuple /\ t.dyn
+          THEN {Append(v, Default(t.elem.t, cenv))} \cup (IF Len(v) > 0 THEN {SubSeq(v, 1, Len(v) - 1)} ELSE {})
+          ELSE {})
+         \cup UNION { {[v EXCEPT ![j] = w] : w \in BadMods(t.elem.t, cenv, v[j])} : j \in 1..Len(v) }
 
 RECURSIVE Mods(_, _, _)
 EntryMods(t, env, v, i) ==
